@@ -177,6 +177,15 @@ func (r *Report) Finish(p *Prog, known *KnownFindings, evidenceDir, tier string,
 		}
 		failed = append(failed, o)
 	}
+	// findings reproduced by a test but outside what the static rules decide: listed so that they are not forgotten,
+	// reported on every run (the rules cannot tell whether they still hold)
+	for _, k := range known.Known {
+		if k.Property == r.Property && strings.HasPrefix(k.Key, "behaviour:") {
+			used[k.Key] = true
+			out.KnownHits++
+			out.Lines = append(out.Lines, fmt.Sprintf("KNOWN-FINDING: property=%s %s %s (reproduced by a test; not decided by a static rule)", r.Property, k.Key, k.What))
+		}
+	}
 	for k := range knownSet {
 		if !used[k] {
 			out.Lines = append(out.Lines, fmt.Sprintf("NOTE stale known finding (no failed obligation matches): %s", k))
